@@ -18,6 +18,7 @@ package blob
 
 import (
 	"bytes"
+	"crypto/sha256"
 	"encoding/hex"
 	"encoding/json"
 	"errors"
@@ -39,7 +40,52 @@ type verifRd struct {
 	st   string
 }
 
+// verifGen is procedurally generated content (so that histories with blobs of MiBs stay small): the SHA-256 of
+// "verif-<seed>" repeated up to n bytes.  props/c08.py generates the same bytes.
+func verifGen(seed, n int) []byte {
+	blk := sha256.Sum256([]byte(fmt.Sprintf("verif-%d", seed)))
+	out := make([]byte, 0, n+32)
+	for len(out) < n {
+		out = append(out, blk[:]...)
+	}
+	return out[:n]
+}
+
+// {"gen":{"seed":s,"len":n,"chunk":c,"flip":pos|-1,"cut":m|-1,"extra":k}}: generated content, optionally with one byte
+// flipped, cut to m bytes, or followed by k more bytes, delivered in reads of c bytes
+func verifGenReads(g map[string]any) []verifRd {
+	num := func(k string, def int) int {
+		if v, ok := g[k].(float64); ok {
+			return int(v)
+		}
+		return def
+	}
+	data := verifGen(num("seed", 0), num("len", 0))
+	if p := num("flip", -1); p >= 0 && p < len(data) {
+		data[p] ^= 1
+	}
+	if m := num("cut", -1); m >= 0 && m < len(data) {
+		data = data[:m]
+	}
+	if k := num("extra", 0); k > 0 {
+		data = append(data, verifGen(num("seed", 0)+1, k)...)
+	}
+	c := num("chunk", 32768)
+	var out []verifRd
+	for len(data) > 0 {
+		n := min(c, len(data))
+		out = append(out, verifRd{data[:n], "more"})
+		data = data[n:]
+	}
+	return out
+}
+
 func verifReads(v any) []verifRd {
+	if g, ok := v.(map[string]any); ok {
+		if gg, ok := g["gen"].(map[string]any); ok {
+			return verifGenReads(gg)
+		}
+	}
 	l, _ := v.([]any)
 	out := make([]verifRd, 0, len(l))
 	for _, x := range l {
@@ -156,13 +202,21 @@ func verifRes(err error) map[string]any {
 	return map[string]any{"kind": "err", "err": verifErrClass(err), "msg": err.Error()}
 }
 
+// verifLarge: the case works with blobs of MiBs: snapshots carry digest and size of every blob file, not its bytes
+var verifLarge bool
+
 func verifSnapshot(c *DiskCache, dir string, digests []Digest) map[string]any {
 	blobs := map[string]string{}
+	bsum := map[string]any{}
 	ents, _ := os.ReadDir(filepath.Join(dir, "blobs"))
 	for _, e := range ents {
 		b, err := os.ReadFile(filepath.Join(dir, "blobs", e.Name()))
 		if err == nil {
-			blobs[e.Name()] = hex.EncodeToString(b)
+			if verifLarge {
+				bsum[e.Name()] = []any{fmt.Sprintf("%x", sha256.Sum256(b)), len(b)}
+			} else {
+				blobs[e.Name()] = hex.EncodeToString(b)
+			}
 		}
 	}
 	links := map[string]string{}
@@ -208,7 +262,7 @@ func verifSnapshot(c *DiskCache, dir string, digests []Digest) map[string]any {
 		}
 		names = append(names, n)
 	}
-	return map[string]any{"blobs": blobs, "links": links, "gets": gets, "names": names, "stray": stray}
+	return map[string]any{"blobs": blobs, "bsum": bsum, "links": links, "gets": gets, "names": names, "stray": stray}
 }
 
 // verifProbe resolves every name of the case without side effects (manifestPath + readAndSum, i.e. Resolve without the
@@ -346,12 +400,28 @@ func verifOp(c *DiskCache, dir string, op map[string]any) map[string]any {
 	return map[string]any{"kind": "harness_error", "msg": "unknown op"}
 }
 
+// verifOddDir: the cache directory gets the (odd but legal) name the case asks for, inside the temporary directory
+func verifOddDir(c map[string]any, dir string) (string, error) {
+	if n, ok := c["dirname"].(string); ok && n != "" {
+		dir = filepath.Join(dir, n)
+		if err := os.MkdirAll(dir, 0o777); err != nil {
+			return "", err
+		}
+	}
+	return dir, nil
+}
+
 func verifHist(c map[string]any) any {
 	dir, err := os.MkdirTemp("", "c08-")
 	if err != nil {
 		return map[string]any{"harness_error": err.Error()}
 	}
 	defer os.RemoveAll(dir)
+	if dir, err = verifOddDir(c, dir); err != nil {
+		return map[string]any{"harness_error": err.Error()}
+	}
+	verifLarge, _ = c["large"].(bool)
+	defer func() { verifLarge = false }()
 	cache, err := Open(dir)
 	if err != nil {
 		return map[string]any{"harness_error": err.Error()}
@@ -467,6 +537,9 @@ func verifConc(c map[string]any) any {
 		return map[string]any{"harness_error": err.Error()}
 	}
 	defer os.RemoveAll(dir)
+	if dir, err = verifOddDir(c, dir); err != nil {
+		return map[string]any{"harness_error": err.Error()}
+	}
 	cache, err := Open(dir)
 	if err != nil {
 		return map[string]any{"harness_error": err.Error()}
